@@ -23,19 +23,20 @@ type profile struct {
 	noSeal    bool
 	forks     int // 0 none, 1 some runs, 2 most runs
 	resets    bool
+	deep      int // permille of runs that are one deep epoch (hundreds of frames)
 }
 
 var profiles = map[string]profile{
-	"C01": {resets: true, on: []string{"agree", "permtwin"}, byz: 30, spec: 10, restarts: true, maxEvents: 140, forks: 1},
-	"C02": {resets: true, on: []string{"delivery"}, byz: 20, restarts: true, maxEvents: 140, forks: 1},
+	"C01": {deep: 40, resets: true, on: []string{"agree", "permtwin"}, byz: 30, spec: 10, restarts: true, maxEvents: 140, forks: 2},
+	"C02": {deep: 40, resets: true, on: []string{"delivery"}, byz: 20, restarts: true, maxEvents: 140, forks: 1},
 	"C03": {resets: true, on: []string{"cheaters"}, heavyOK: true, maxEvents: 120, forks: 2},
-	"C04": {on: []string{"frame", "reject"}, byz: 250, spec: 120, storms: true, restarts: true, maxEvents: 90, forks: 1},
+	"C04": {deep: 40, on: []string{"frame", "reject"}, byz: 250, spec: 120, storms: true, restarts: true, maxEvents: 90, forks: 1},
 	"C05": {resets: true, on: []string{"fc"}, heavyOK: true, restarts: true, maxEvents: 110, forks: 2},
 	"C06": {resets: true, on: []string{"clock"}, heavyOK: true, restarts: true, maxEvents: 110, forks: 2},
 	"C07": {on: []string{"twin", "reject"}, byz: 250, spec: 150, maxEvents: 90, forks: 1},
 	"C08": {on: []string{"restartenum"}, byz: 80, maxEvents: 70, forks: 1},
 	"C09": {resets: true, on: []string{"seal", "joiner", "agree"}, byz: 20, restarts: true, maxEvents: 140, forks: 1},
-	"C10": {resets: true, on: []string{"ref", "reject"}, byz: 120, spec: 10, restarts: true, maxEvents: 130, forks: 1},
+	"C10": {deep: 40, resets: true, on: []string{"ref", "reject"}, byz: 120, spec: 10, restarts: true, maxEvents: 130, forks: 1},
 	"C20": {resets: true, on: []string{"qi"}, heavyOK: true, maxEvents: 100, forks: 1, noSeal: false},
 	"C33": {resets: true, on: []string{"roots"}, tinyRoots: true, byz: 30, restarts: true, maxEvents: 110, forks: 1},
 }
@@ -51,6 +52,19 @@ func (cl *Cluster) drawKnobs(p profile) {
 	maxVal := 7
 	if thorough {
 		maxVal = 10
+	}
+	k.deepLagNode = -1
+	if p.deep > 0 {
+		k.deep = K("deep_epoch", func() int64 {
+			if c.Chance("deep_epoch", p.deep) {
+				return 1
+			}
+			return 0
+		}) == 1
+	}
+	if k.deep {
+		cl.drawDeepKnobs(p)
+		return
 	}
 	k.nVal = K("validators", func() int64 {
 		w := []int{1, 2, 3, 5, 5, 4, 3, 2, 1, 1}[:maxVal]
@@ -110,7 +124,19 @@ func (cl *Cluster) drawKnobs(p profile) {
 		tot += w
 	}
 	for j := 0; j < wantCheaters; j++ {
-		id := uint32(K(fmt.Sprintf("cheater%d", j), ri("cheater_id", 1, k.nVal)))
+		id := uint32(K(fmt.Sprintf("cheater%d", j), func() int64 {
+			if c.Chance("cheater_ranks_first", 350) {
+				// the validator that comes first in the Atropos order (heaviest, lowest id): its fork roots are the first candidates
+				best := 0
+				for i, w := range k.weights {
+					if w > k.weights[best] {
+						best = i
+					}
+				}
+				return int64(best + 1)
+			}
+			return int64(c.Int("cheater_id", 1, k.nVal))
+		}))
 		if k.cheaters[id] {
 			continue
 		}
@@ -198,6 +224,68 @@ func (cl *Cluster) drawKnobs(p profile) {
 	k.oldParentPm = K("old_parent_permille", func() int64 { return int64(c.PickW("oldp", []int{3, 2, 1})) * 100 })
 }
 
+// drawDeepKnobs configures a run that stays in one epoch for hundreds of frames: 2..4 validators,
+// a quick network, no seals.  With 4 equal validators one of them may fall silent while the other
+// three advance more than 100 frames, and then comes back (frame claims far above the self-parent's).
+func (cl *Cluster) drawDeepKnobs(p profile) {
+	c := cl.c
+	k := &cl.k
+	K := func(name string, gen func() int64) int { return int(c.Knob(name, gen)) }
+	ri := func(label string, lo, hi int) func() int64 {
+		return func() int64 { return int64(c.Int(label, lo, hi)) }
+	}
+	k.nVal = K("validators", func() int64 { return int64(2 + c.PickW("deep_validators", []int{3, 2, 4})) })
+	k.weightMode = 0
+	k.weights = make([]uint64, k.nVal)
+	for i := range k.weights {
+		k.weights[i] = uint64(K(fmt.Sprintf("w%d", i), func() int64 { return 1 }))
+	}
+	k.cheaters = map[uint32]bool{}
+	k.maxParents = K("max_parents", func() int64 { return int64(k.nVal + 1 - c.PickW("deep_fewer_parents", []int{6, 1})) })
+	if k.maxParents < 2 {
+		k.maxParents = 2
+	}
+	rootsChoices := []int{0, 1, 2, 5, 100, 1000}
+	k.cc.rootsNum = uint(rootsChoices[K("roots_num", ri("roots_num", 0, len(rootsChoices)-1))])
+	k.cc.rootsFrames = rootsChoices[K("roots_frames", ri("roots_frames", 0, len(rootsChoices)-1))]
+	fcChoices := []int{1, 2, 16, 200, 20000}
+	k.cc.fcPairs = fcChoices[K("fc_cache", ri("fc_cache", 0, len(fcChoices)-1))]
+	vecChoices := []int{1, 64, 1600, 160 * 1024}
+	k.cc.hbSize = uint(vecChoices[K("hb_cache", ri("hb_cache", 0, len(vecChoices)-1))])
+	k.cc.laSize = uint(vecChoices[K("la_cache", ri("la_cache", 0, len(vecChoices)-1))])
+	k.bufNum = 1000
+	cl.bufLimit = dag.Metric{Num: idx.Event(k.bufNum), Size: uint64(k.bufNum) * 4096}
+	k.sealFrame, k.maxEpochs = 0, 1
+	k.events = K("events", func() int64 {
+		if k.nVal == 2 {
+			return int64(c.Int("deep_events", 400, 900)) // two validators: a frame per round, beyond 256 decided frames
+		}
+		return int64(c.Int("deep_events", 400, 1200))
+	})
+	if k.nVal == 4 {
+		k.deepLagNode = K("deep_laggard", ri("deep_laggard", -1, 3))
+		if k.deepLagNode >= 0 {
+			k.deepLagFrom = K("deep_laggard_from", ri("deep_laggard_from", 4, 40))
+			k.deepLagTo = K("deep_laggard_to", func() int64 { return int64(k.events - c.Int("deep_laggard_tail", 10, 150)) })
+		}
+	}
+	k.dropPm = K("drop_permille", func() int64 { return int64(c.PickW("drop", []int{4, 1})) * 50 })
+	k.dupPm = K("dup_permille", func() int64 { return int64(c.PickW("dup", []int{4, 1})) * 50 })
+	k.fifoPm = 900
+	k.activity = make([]int, k.nVal)
+	for i := range k.activity {
+		k.activity[i] = 4
+	}
+	if p.restarts {
+		k.restartPm = K("restart_permille", func() int64 { return int64(c.PickW("restart", []int{5, 2})) * 6 })
+	}
+	if p.byz > 0 {
+		k.byzPm = K("byzantine_frame_permille", func() int64 { return int64(c.PickW("byz", []int{2, 3})) * int64(p.byz) / 4 })
+	}
+	k.syncPm = 25
+	c.Probe("deep_epoch_run")
+}
+
 // Run is one simulated cluster run for property prop.
 func Run(c *sim.Ctx, prop string) {
 	p := profiles[prop]
@@ -207,6 +295,9 @@ func Run(c *sim.Ctx, prop string) {
 	}
 	cl.ext = newExtras(cl)
 	c.ProbeDecl("event_frame_gt1", "run_with_forks", "run_with_epoch_change")
+	if p.deep > 0 {
+		c.ProbeDecl("deep_epoch_run", "build_capped_100_frames_above_self_parent", "valid_claim_more_than_100_frames_above_self_parent", "block_of_frame_256_or_higher")
+	}
 	cl.drawKnobs(p)
 	k := &cl.k
 	// nodes: one per possible validator id, then second personalities of cheaters, then observers
@@ -317,13 +408,14 @@ type gen struct {
 	stormNode int
 	partLeft  int
 	stallLeft []int
-	cl       *Cluster
-	p        profile
-	steps    int
-	phase    int // 0 main, 1 syncing, 2 quiesce issued, 3 done
-	rounds   int
-	lastSnap string
-	storms   int
+	cl        *Cluster
+	p         profile
+	steps     int
+	phase     int // 0 main, 1 syncing, 2 quiesce issued, 3 done
+	rounds    int
+	lastSnap  string
+	storms    int
+	lagClaims int
 }
 
 func (g *gen) snapshot() string {
@@ -375,7 +467,7 @@ func (g *gen) next() (sim.Op, bool) {
 		}
 		g.stormLeft = 0
 	}
-	if g.p.storms && g.storms < 2 && c.Chance("storm", 8) {
+	if g.p.storms && !k.deep && g.storms < 2 && c.Chance("storm", 8) {
 		// a storm: hundreds of speculative builds of varying candidates on one instance, optionally right after a restart
 		var elig []int
 		for _, n := range cl.nodes {
@@ -416,6 +508,9 @@ func (g *gen) next() (sim.Op, bool) {
 			g.stallLeft[i]--
 		}
 	}
+	if k.deepLagNode >= 0 && cl.emitted >= k.deepLagFrom && cl.emitted < k.deepLagTo {
+		g.stallLeft[k.deepLagNode] = 2 // silent: neither emits nor receives
+	}
 	if k.stallPm > 0 && len(cl.nodes) > 1 && c.Chance("stall_start", k.stallPm) {
 		i := c.Pick("stall_node", len(cl.nodes))
 		g.stallLeft[i] = c.Int("stall_steps", 10, 120)
@@ -427,6 +522,9 @@ func (g *gen) next() (sim.Op, bool) {
 	wDeliver := 3 * len(deliverable)
 	if wDeliver > 90 {
 		wDeliver = 90
+	}
+	if k.deep {
+		wDeliver = 60 * len(deliverable) // a quick network: views are fresh, frames advance every round
 	}
 	wSpec := k.specPm / 10
 	wRestart := 0
@@ -536,6 +634,14 @@ func (g *gen) genEmitFor(spec bool, forced *Node) (sim.Op, bool) {
 		return sim.Op{}, false
 	}
 	n := elig[c.PickW("emitter", ew)]
+	if k.deep && forced == nil && c.Chance("deep_round_robin", 850) {
+		// the validator whose last own event is the oldest goes next: close to one frame per round
+		for _, e := range elig {
+			if e.lastOwn < n.lastOwn {
+				n = e
+			}
+		}
+	}
 	if forced != nil {
 		if forced.stopped || cl.epochRef(forced.epoch()).RV.Pos(forced.val) < 0 {
 			return sim.Op{}, false
@@ -581,7 +687,11 @@ func (g *gen) genEmitFor(spec bool, forced *Node) (sim.Op, bool) {
 	want := 0
 	if k.maxParents > 1 && len(oc) > 0 {
 		mx := min(k.maxParents-1, len(oc)+1)
-		want = mx - c.PickW("fewer_parents", []int{6, 2, 1, 1})
+		if k.deep {
+			want = mx - c.PickW("fewer_parents", []int{14, 1, 1})
+		} else {
+			want = mx - c.PickW("fewer_parents", []int{6, 2, 1, 1})
+		}
 		if want < 0 {
 			want = 0
 		}
@@ -609,7 +719,11 @@ func (g *gen) genEmitFor(spec bool, forced *Node) (sim.Op, bool) {
 		return sim.Op{K: "spec", A: a}, true
 	}
 	kind, delta := 0, 0
-	if k.byzPm > 0 && c.Chance("byzantine_frame", k.byzPm) {
+	if k.deepLagNode == n.id && cl.emitted >= k.deepLagTo && g.lagClaims < 4 && c.Bool("laggard_claims_higher_frame") {
+		// the returning validator claims frames above what Build assigns (allowed whenever the quorum conditions hold)
+		g.lagClaims++
+		kind, delta = 1, 1+c.Pick("laggard_frame_delta", 3)
+	} else if k.byzPm > 0 && c.Chance("byzantine_frame", k.byzPm) {
 		kind = 1
 		delta = []int{-2, -1, 1, 2, 101}[c.PickW("frame_delta", []int{2, 4, 4, 1, 1})]
 	}
